@@ -149,7 +149,9 @@ pub fn case(seed: u64, st: &mut Stats) {
             if r.last && rng.chance(1, 3) {
                 r.allow_hyphen = true;
             }
-            if r.last && rng.chance(1, 3) {
+            // number-like dash words are values for `rest` alone: what the other words of the
+            // prefix mean does not change, so this sibling setting is inside the premise everywhere
+            if rng.chance(1, 3) {
                 r.allow_negative = true;
             }
         }
@@ -160,6 +162,7 @@ pub fn case(seed: u64, st: &mut Stats) {
     if rng.chance(1, 5) {
         root.set(Setting::ArgsConflictsWithSubcommands);
     }
+    root.push_down(&[Setting::InferLongArgs, Setting::InferSubcommands, Setting::ArgsOverrideSelf]);
     let cmd = match gate(&root) {
         Ok(c) => c,
         Err(p) => {
@@ -249,7 +252,21 @@ pub fn case(seed: u64, st: &mut Stats) {
         let mut base = base;
         let mut pre_rest: Vec<Vec<u8>> = vec![];
         if !last && (lead_given || !with_lead) && rng.chance(1, 3) {
-            let pre: Vec<Vec<u8>> = (0..rng.range(1, 2)).map(|k| if rng.coin() { format!("pre{}", k).into_bytes() } else { format!("p{},q{}", k, k).into_bytes() }).collect();
+            let neg = lvl.args.iter().any(|a| a.id == "rest" && a.allow_negative);
+            let pre: Vec<Vec<u8>> = (0..rng.range(1, 2))
+                .map(|k| {
+                    if neg && rng.coin() {
+                        format!("-{}", k + 2).into_bytes()
+                    } else if rng.coin() {
+                        format!("pre{}", k).into_bytes()
+                    } else {
+                        format!("p{},q{}", k, k).into_bytes()
+                    }
+                })
+                .collect();
+            if neg {
+                st.count("tail.after-values-of-negative-number-positional");
+            }
             let mut p2 = prefix.clone();
             p2.extend(pre.iter().map(|t| os(t)));
             let want: Vec<Vec<u8>> = pre.iter().flat_map(|t| split(t)).collect();
